@@ -17,6 +17,10 @@ def judge_names(req, rr):
             return True, 'accepted %r which is not projects/<P>%s<ID> (parsed as %s)' % (o['input'], seg.decode(), o['parsed'])
         if not o['echo_accepted'] or not o['echo_same']:
             return True, 'accepted %r; echoed %r is %s' % (o['input'], o['echo'], 'rejected' if not o['echo_accepted'] else 'a different resource')
+        want = b'projects/' + m.group(1) + seg + m.group(2).strip(b'/')
+        if o['echo'].encode() != want:
+            return True, ('accepted %r but it denotes %r: project or ID are not the text of the name (canonical form would be %r), so names that differ '
+                          'can denote one resource' % (o['input'], o['echo'], want.decode('utf-8', 'replace')))
         return False, 'accepted, well-formed and echo round-trips'
     return False, 'no observation (exit %s) %s' % (rr['exit'], rr['tail'][-300:])
 
